@@ -240,7 +240,9 @@ func (c *Cluster) AddNode() (*Node, error) {
 	if n.kvf, err = kv.NewPebbleKVFactory(&kv.FactoryOptions{DataDir: n.dir + "/db", InMemory: false, CacheSizeMB: 1}); err != nil {
 		return nil, err
 	}
-	n.walf = wal.NewWalFactory(&wal.FactoryOptions{BaseWalDir: n.dir + "/wal", SegmentSize: 64 * 1024, SyncData: false})
+	// real WALs with an injected clock and a trimmer that runs when the harness says so (TrimAll); small segments,
+	// so that the scripts roll over
+	n.walf = NewTrimWalFactory(&wal.FactoryOptions{BaseWalDir: n.dir + "/wal", SegmentSize: 8 * 1024, SyncData: false, Retention: time.Hour})
 	if n.Follower, err = server.NewFollowerController(nodeConfig, constant.DefaultNamespace, Shard, n.walf, n.kvf); err != nil {
 		return nil, err
 	}
@@ -701,4 +703,30 @@ func (c *Cluster) Demote(name string) error {
 	n.Follower = f
 	c.mu.Unlock()
 	return nil
+}
+
+// TrimAll: "two hours later" the trimmer of every node's WAL runs once: every entry is older than the retention
+// time, the commit offset the controller reports bounds what is dropped (whole segments only).
+func (c *Cluster) TrimAll() error {
+	for _, n := range c.Nodes {
+		if f, ok := n.walf.(*TrimWalFactory); ok {
+			if _, err := f.TrimLater(2 * time.Hour); err != nil {
+				return fmt.Errorf("%s: %w", n.Name, err)
+			}
+		}
+	}
+	return nil
+}
+
+// WalFirstOffset: the first offset of the WAL the node's controller has opened last
+func (c *Cluster) WalFirstOffset(name string) int64 {
+	n := c.node(name)
+	if f, ok := n.walf.(*TrimWalFactory); ok {
+		f.mu.Lock()
+		defer f.mu.Unlock()
+		if f.last != nil {
+			return f.last.FirstOffset()
+		}
+	}
+	return -1
 }
